@@ -58,6 +58,10 @@ CHECKS = {
          "13 eccentricities (0..0.999999) x ~850 mean anomalies (thorough ~7 400) for Kepler's equation; vis-viva and orbit-length identities on 13 x 4 (e, a) incl. both sides of the 0.95 switch; all triangle-feasible distance triples for the phase relations; 700 node-passage cases (omega x e or q x both nodes) closed through the library's own Kepler solver or an independent Barker solver.",
          "Real-valued quantifier: finite lattice; residuals evaluated in double precision.",
          "DESIGN.md 3/C11"),
+ "C18": (EX, "exhaustive Cartesian products: ellipsoids x latitudes x argument representations x heights for the ellipsoid identities; all ordered pairs of 18 surface points for the distance; distance ladder x directions x observers for the parallax bound and decay",
+         "5 ellipsoids x 13 latitudes (poles, 1e-6, 0) x {int, float, Angle} x 4 heights for the identities (1e-12); all 324 ordered point pairs x 3 ellipsoids for symmetry, coincidence, equator/meridian arcs (Simpson integral of rm) and the great-circle bound; 930 parallax configurations x 6 distances 1e-3..1e3 AU for the horizontal-parallax bound and the 1/distance decay.",
+         "Real-valued quantifier: finite lattice; the great-circle bound is applied as 0.6 % for the built-in ellipsoids and 2 f for user ellipsoids.",
+         "DESIGN.md 3/C18"),
 }
 
 NOT_YET = {}
